@@ -25,7 +25,8 @@ CORR_IMPORTS = ['QV.C16.Model', 'QV.C16.Spec', 'QV.C16.Corr']
 CHECK_CORR = 'check_corr'
 CHECK_SPEC = 'check_spec'
 SHARD = 40
-RULE = ('program trees of depth 0..4 (balanced and unbalanced, repetition counts 1..4, measurement flags) over 1..4 '
+RULE = ('program trees of depth 0..4 (balanced and unbalanced, repetition counts 1..4, measurement flags, volatile counts '
+        'in ~30% of the cases + targeted trees for every volatile-specific branch) over 1..4 '
         'leaf waveforms built from TablePT (hold / linear entries) or ConstantPT, every leaf defining the same channel '
         'set; leaf lengths mostly multiples of 16 >= 192 samples plus a deliberately incompatible stream (too short, '
         'not a multiple of 16, half-integer); channel and marker assignment incl. None and the same channel twice; '
@@ -33,7 +34,8 @@ RULE = ('program trees of depth 0..4 (balanced and unbalanced, repetition counts
         'voltages on range boundaries and out of range; min_seq_len 1..6, max_seq_len min..min+6 (forces merging, '
         'partial unrolling, neighbour unrolling, rejections); mode auto / single / advanced; wrong tuple lengths.  '
         'Half of the programs are built through create_program of Sequence/Repetition templates.  Thorough tier adds '
-        'all trees with <= 4 nodes x repetition counts {1,2,3} x limits {1,2,3}.  Non-trivial = accepted program '
+        'all trees with <= 4 nodes x repetition counts {1,2,3} x limits {1,2,3} and all trees with <= 3 nodes x counts '
+        '{1,2} x every volatile subset x limits.  Non-trivial = accepted program '
         'with more than one table entry or a restructured tree; distinct = canonical JSON of the case.')
 TRUSTED = [
     'Coq 8.16.1 kernel + vm_compute (no native_compute)',
@@ -44,7 +46,7 @@ TRUSTED = [
     'the instrument driver hardware/awgs/tabor.py is not importable offline; its table layout (idle table first, numbers + 1) is re-created by the harness for PlottableProgram',
 ]
 ASSUMPTIONS = [
-    'no volatile repetition counts (C15), repetition counts >= 1, parent indices of the Loop tree are consistent (no prior reverse_inplace)',
+    'repetition counts >= 0 (count 0 only in directly built trees: create_program drops such repetitions), volatile counts = flag + current value (what an update does is C15), parent indices of the Loop tree are consistent (no prior reverse_inplace)',
     'voltage transformations are affine maps with dyadic coefficients; amplitude > 0',
     'every leaf defines all assigned channels; leaf lengths are exact integers or clearly non-integers (no length within the 1e-10 tolerance of an integer)',
 ]
@@ -52,6 +54,7 @@ ASSUMPTIONS = [
 CH_NAMES = ['A', 'B', 'M', 'N', 'X']
 CH_ID = {n: i for i, n in enumerate(CH_NAMES)}
 KF_SINGLE = 'single_mode_table_length_unchecked'
+KF_ZERO = 'zero_count_empties_table'
 
 
 # ---------------------------------------------------------------------------------------------------------------------
@@ -178,6 +181,18 @@ def gen_tree(rng, depth, nwf, top=True, pvol=0.0):
     return [rng.choice([1, 1, 1, 2, 3]), rng.random() < 0.12, None, ch] + vol
 
 
+def has_zero(t):
+    return t[0] == 0 or any(has_zero(c) for c in t[3])
+
+
+def zeroify(t, rng, p):
+    t = list(t)
+    if rng.random() < p:
+        t[0] = 0
+    t[3] = [zeroify(c, rng, p) for c in t[3]]
+    return t
+
+
 def any_vol(t):
     return t_vol(t) or any(any_vol(c) for c in t[3])
 
@@ -241,8 +256,11 @@ def gen_prog_case(rng, tier, force=None):
     nch = None
     if rng.random() < 0.04:
         nch = rng.choice([[1, 2], [3, 2], [2, 1], [2, 3]])
+    build = force.get('build', rng.choice(['direct', 'template']))
+    if 'tree' not in force and build == 'direct' and rng.random() < 0.12:
+        tree = zeroify(tree, rng, rng.choice([0.15, 0.3]))      # repetition count 0 (what a volatile count can be)
     return {'kind': 'prog', 'rate': str(rate), 'defined': defined, 'wfs': wfs, 'tree': tree, 'cfg': cfg,
-            'build': force.get('build', rng.choice(['direct', 'template'])), 'ntuple': nch}
+            'build': build, 'ntuple': nch}
 
 
 def enum_shapes(n):
@@ -276,6 +294,16 @@ def label_shape(shape, reps, wfpick):
     if not shape:
         return [r, False, next(wfpick), []]
     return [r, False, None, [label_shape(c, reps, wfpick) for c in shape]]
+
+
+def clean_case(tree, mn, mx, mode=None):
+    """two constant-ish leaves of 192 / 208 samples on channel A, marker B = A, identity scaling"""
+    return {'kind': 'prog', 'rate': '1', 'defined': ['A'],
+            'wfs': [{'len': '192', 'pt': 'table', 'chans': {'A': [[0, '1/4'], ['192', '1/4', 'hold']]}},
+                    {'len': '208', 'pt': 'table', 'chans': {'A': [[0, '-1/2'], [100, '1/2', 'hold'], ['208', '1/2', 'hold']]}}],
+            'tree': tree, 'build': 'direct', 'ntuple': None,
+            'cfg': {'channels': ['A', None], 'markers': [None, 'A'], 'amps': ['1', '1'], 'offs': ['0', '0'],
+                    'trafo': [['1', '0'], ['1', '0']], 'min': mn, 'max': mx, 'mode': mode, 'cpp': 2}}
 
 
 def gen_cases(rng, tier, ctx):
@@ -324,13 +352,10 @@ def gen_cases(rng, tier, ctx):
         [1, False, None, [[2, False, None, [[1, False, None, [[1, False, 0, []]]]], V], [1, False, None, [[1, False, None, [[1, False, 1, []]], V]]]]],
     ]
     for t in targeted_vol:
-        for mn, mx in [(1, 4), (2, 3), (2, 5), (3, 4), (3, 6), (3, 16), (4, 8)]:
-            if tier == 'quick' and rng.random() < 0.45:
-                continue
-            c = gen_prog_case(rng, tier, {'tree': t, 'build': 'direct', 'cfg': {'min': mn, 'max': mx, 'mode': None}})
-            while len(c['wfs']) < 2:
-                c['wfs'].append(c['wfs'][0])
-            cases.append(c)
+        # clean leaves / configuration: nothing but the restructuring decides about accept / reject here
+        for mn, mx in ([(1, 4), (2, 3), (2, 5), (3, 6)] if tier == 'quick' else
+                       [(1, 4), (2, 3), (2, 5), (3, 4), (3, 6), (3, 16), (4, 8), (1, 2), (2, 2)]):
+            cases.append(clean_case(t, mn, mx))
     for t in targeted:
         for mn, mx in [(1, 2), (2, 3), (3, 4), (3, 6), (2, 2), (3, 16), (4, 5), (2, 4), (3, 5), (4, 8)]:
             if tier == 'quick' and rng.random() < 0.35:
@@ -545,6 +570,14 @@ def _run_impl(case):
     except (TaborException, ValueError, AssertionError) as e:
         obs['err'] = type(e).__name__
         return obs
+    except AttributeError as e:
+        if 'get_subset_for_channels' in str(e) and has_zero(tree):
+            # known finding zero_count_empties_table: a node emptied by unrolling a 0-count child reaches the parser as
+            # a leaf without waveform; still a rejection (nothing is emitted), but not a TaborException
+            obs['err'] = 'AttributeError'
+            return obs
+        obs['crash'] = '%s: %s' % (type(e).__name__, e)
+        return obs
     except Exception as e:
         obs['crash'] = '%s: %s' % (type(e).__name__, e)
         return obs
@@ -570,12 +603,15 @@ def _run_impl(case):
         advt = [(1, 1, 1)] + [(r, n + 1, 0) for r, n in obs['ok']['adv']]
         as_arrays = lambda t: tuple(np.array(col) for col in zip(*t))
         pp = PlottableProgram.from_read_data(waveforms, [as_arrays(t) for t in tabs], as_arrays(advt))
-        got_a = np.asarray(pp.get_as_single_waveform(0)).astype(np.int64)
-        got_b = np.asarray(pp.get_as_single_waveform(1)).astype(np.int64)
+        flat = flatten_tree(tree)
         played = [pp._segments[e.element_number - 1] for e in pp._iter_segment_table_entry() for _ in range(e.repetition_count)]
+        if played or flat:
+            got_a = np.asarray(pp.get_as_single_waveform(0)).astype(np.int64)
+            got_b = np.asarray(pp.get_as_single_waveform(1)).astype(np.int64)
+        else:       # nothing is played (all counts 0): get_as_single_waveform cannot concatenate an empty list
+            got_a = got_b = np.zeros(0, np.int64)
         got_ma = np.concatenate([s.marker_a for s in played]) if played else np.zeros(0, bool)
         got_mb = np.concatenate([s.marker_b for s in played]) if played else np.zeros(0, bool)
-        flat = flatten_tree(tree)
         samp = {}
         for w in set(flat):
             d = case['wfs'][w]
@@ -587,13 +623,13 @@ def _run_impl(case):
 
         def want_channel(i):
             c = cfg['channels'][i]
-            v = np.concatenate([samp[w][c] for w in flat])
+            v = np.concatenate([samp[w][c] for w in flat]) if flat else np.zeros(0)
             if c is None:
                 return np.full(len(v), 8192, dtype=np.int64)
             return voltage_to_uint16(trafos[i](v), amps[i], offs[i], 14).astype(np.int64)
 
         def want_marker(i):
-            v = np.concatenate([samp[w][cfg['markers'][i]] for w in flat])
+            v = np.concatenate([samp[w][cfg['markers'][i]] for w in flat]) if flat else np.zeros(0)
             return (v != 0)[::2]
         for name, got, want in (('channel A', got_a, want_channel(0)), ('channel B', got_b, want_channel(1)),
                                 ('marker A', got_ma, want_marker(0)), ('marker B', got_mb, want_marker(1))):
@@ -694,6 +730,8 @@ def histogram_keys(case, obs):
         keys.append('err:' + obs['err'])
     else:
         keys.append('crash')
+    if has_zero(case['tree']):
+        keys.append('count:0')
     if any_vol(case['tree']):
         keys.append('volatile:input')
     if 'tree' in obs and any_vol(obs['tree']):
@@ -710,6 +748,8 @@ def histogram_keys(case, obs):
 
 
 def py_spec(case, obs):
+    if obs.get('err') == 'AttributeError':
+        return 'TaborProgram failed with AttributeError (leaf without waveform reached the parser) instead of a TaborException'
     if 'ok' not in obs:
         return None
     return obs.get('py_plays') or obs.get('py_tables')
@@ -719,10 +759,106 @@ def classify(case, obs):
     """known finding: in SINGLE mode the table length is not compared with min_seq_len (lower bound only: since the
     repair of setup_single_sequence_mode a table longer than max_seq_len is rejected, so a too LONG table is a
     violation in either mode)"""
+    if obs.get('err') == 'AttributeError' and has_zero(obs.get('tree', case['tree'])):
+        return KF_ZERO
     if 'ok' in obs and not obs['ok']['advanced'] and obs.get('py_plays') is None and obs.get('py_tables') \
             and all(len(t) <= case['cfg']['max'] for t in obs['ok']['seqs']):
         return KF_SINGLE
     return None
+
+
+_SHRUNK = [0]
+
+
+def _still_fails(case, ctx, counter):
+    """observation of a candidate on which the property still fails (crash, Python oracle, or Coq check_spec), else None"""
+    import time
+    if counter['n'] >= 30 or time.time() - counter['t0'] > 60:
+        return None
+    counter['n'] += 1
+    obs = run_impl(case)
+    if 'crash' in obs or 'hang' in obs:
+        return obs
+    if classify(case, obs) is not None:
+        return None
+    if py_spec(case, obs):
+        return obs
+    if 'ok' not in obs:
+        return None
+    try:
+        wd = os.path.join(ctx['workdir'], 'shrink')
+        res = vlib.run_coq_cases(wd, CORR_IMPORTS, [CHECK_SPEC], [to_coq(case, obs)], shard=SHARD, jobs=1)
+    except Exception:
+        return None
+    return obs if res[CHECK_SPEC] else None
+
+
+def _tree_variants(t):
+    """smaller trees: a child instead of the node, one child dropped, count 1, no measurement / volatile flag,
+    waveform 0"""
+    out = []
+    rep, meas, w, ch = t[:4]
+    extra = t[4:]
+    for c in ch:
+        out.append(c)
+    for i in range(len(ch)):
+        if len(ch) > 1:
+            out.append([rep, meas, w, ch[:i] + ch[i + 1:]] + extra)
+    if rep > 1:
+        out.append([1, meas, w, ch] + extra)
+    if meas:
+        out.append([rep, False, w, ch] + extra)
+    if t_vol(t):
+        out.append([rep, meas, w, ch])
+    if w not in (None, 0):
+        out.append([rep, meas, 0, ch] + extra)
+    for i, c in enumerate(ch):
+        for v in _tree_variants(c):
+            out.append([rep, meas, w, ch[:i] + [v] + ch[i + 1:]] + extra)
+    return out
+
+
+def shrink(case, obs, ctx):
+    """greedy: smaller tree, simpler configuration, constant leaves; every step re-runs the implementation and keeps a
+    candidate only if the property still fails on it"""
+    import time
+    if case.get('kind') != 'prog' or _SHRUNK[0] >= 2:      # at most two replays are minimised per run (time)
+        return case, obs
+    _SHRUNK[0] += 1
+    counter = {'n': 0, 't0': time.time()}
+    best, best_obs = case, obs
+    progress = True
+    while progress:
+        progress = False
+        cands = []
+        if best.get('build') != 'direct':
+            cands.append(dict(best, build='direct'))
+        if best.get('ntuple'):
+            cands.append(dict(best, ntuple=None))
+        cands.extend(dict(best, tree=tv) for tv in _tree_variants(best['tree']))
+        cfg = best['cfg']
+        simple = {'amps': ['1', '1'], 'offs': ['0', '0'], 'trafo': [['1', '0'], ['1', '0']], 'mode': None}
+        for k, v in simple.items():
+            if cfg[k] != v:
+                cands.append(dict(best, cfg=dict(cfg, **{k: v})))
+        for k in ('channels', 'markers'):
+            for i in (0, 1):
+                if cfg[k][i] is not None and sum(x is not None for x in cfg['channels'] + cfg['markers']) > 1:
+                    cands.append(dict(best, cfg=dict(cfg, **{k: [None if j == i else x for j, x in enumerate(cfg[k])]})))
+        if best['rate'] != '1':
+            cands.append(dict(best, rate='1'))
+        for wi, d in enumerate(best['wfs']):
+            if any(len(e) > 2 for e in d['chans'].values()) or d['len'] != '192':
+                flat = {k: [[0, e[0][1]], ['192', e[0][1], 'hold']] for k, e in d['chans'].items()}
+                cands.append(dict(best, wfs=best['wfs'][:wi] + [dict(d, len='192', chans=flat)] + best['wfs'][wi + 1:]))
+        for c in cands:
+            o = _still_fails(c, ctx, counter)
+            if o is not None:
+                best, best_obs, progress = c, o, True
+                break
+            if counter['n'] >= 30:
+                break
+    return best, best_obs
 
 
 def search_failing(ctx, broken):
@@ -740,21 +876,28 @@ def search_failing(ctx, broken):
 
 
 MANIFEST = {
-    'level_text': 'Proof (Coq, unbounded in tree shape / counts / lengths / limits) over an executable model of '
-                  'TaborProgram.__init__ and everything it calls, in stages: (1) flatten_and_balance(2) and '
-                  'prepare_program_for_advanced_sequence_mode preserve the played leaf sequence for every fuel '
-                  '(_partial: termination not proved); (2) a sampled segment decoded from its uploaded binary layout is '
-                  'the 14-bit codes of both channels and the half-rate marker bits of the leaf; (3) the quantiser '
-                  'is nearest-integer, ties to even, 14 bit; (4) every emitted segment and, in advanced mode, every '
-                  'sequencer table respects the device limits (single mode refuted by witness = known finding). The '
-                  'composition compile = Ok o -> expand o = spec (C16_plays_statement) is NOT proved: the index '
-                  'bookkeeping of the parse / de-duplication stage is only tested.  Tie to /repo: exact '
-                  'correspondence check (segments as uploaded binary, tables, mode, accept/reject) and the '
-                  'specification evaluated by Coq on the implementation\'s tables on every case.',
+    'level_text': 'Proof (Coq, unbounded in tree shape / counts / lengths / limits / channel assignment) over an '
+                  'executable model of TaborProgram.__init__ and everything it calls.  PROVED IN FULL: C16_plays — '
+                  'whenever the compiler model accepts a program (either mode, fixed or volatile counts at their '
+                  'current value), the emitted advanced table / sequencer tables / segments, played by an independent '
+                  'table player that decodes the uploaded binary layout, give exactly the quantised source program on '
+                  'both channels (14-bit codes, nearest, ties to even) and both markers (half rate); stages: '
+                  'restructuring (flatten_and_balance(2) + prepare preserve the played leaf sequence), index '
+                  'invariants of the three setdefault de-duplications (waveforms, sequencer tables, segments), segment '
+                  'packing, half-rate lemma.  Termination: prepare with an explicit measure, flatten_and_balance by an '
+                  'existence proof + fuel monotonicity; C16_plays_total: with enough fuel the model result is '
+                  'fuel-independent and never the fuel error.  Limits: every emitted segment >= 192, multiple of 16; '
+                  'every table <= max_seq_len in both modes; >= min_seq_len in advanced mode (single mode refuted by '
+                  'witness = known finding, intended behaviour).  Tie to /repo: exact correspondence check (segments '
+                  'as uploaded binary, tables, mode, accept/reject) and the specification evaluated by Coq on the '
+                  'implementation\'s tables on every case.',
     'level_note': 'Trusted: Coq kernel, harness, numpy float exactness on dyadic inputs, Waveform equality classes and '
-                  'get_sampled (inputs of the model / compared through the spec), affine voltage transformations only, '
-                  'no volatile repetitions; the instrument driver is not importable and not covered.',
-    'technique': 'Coq proof (staged translation validation of an executable compiler model) + correspondence check + '
-                 'PlottableProgram replay oracle',
+                  'get_sampled (inputs of the model / compared through the spec; hypothesis of C16_plays: equal class '
+                  '=> equal data, exact sample counts), affine voltage transformations only; volatile counts are a '
+                  'flag + current value (updates are C15); flatten_and_balance termination has no explicit bound, so '
+                  'the fixed fuel (4000) of `compile` is covered by the correspondence check only; the instrument '
+                  'driver is not importable and not covered.',
+    'technique': 'Coq proof (translation validation of an executable compiler model, invariants over the parse folds, '
+                 'termination) + correspondence check + PlottableProgram replay oracle',
     'design_ref': 'DESIGN.md §5 C16',
 }
